@@ -6,7 +6,8 @@ import gen
 RULE = ('cases = (world, k | world, colocate, cost dict) x every local rank; real KAISAAssignment '
         'built per rank with a recording group_func; all public queries compared with the Lean '
         'model fed the observed CPython set order; non-trivial = world > 1 and at least one layer; '
-        'distinct = distinct (world,k,colocate,work) keys')
+        'distinct = distinct (world,k,colocate,work) keys'
+        '; k sweeps inside one process, one interpreter per rank with distinct string-hash seeds, the views the real KFACPreconditioner builds on every simulated rank of a multi-node launch, every rank of larger non-power-of-two worlds')
 TRUSTED = [
     'Lean 4.33 kernel + Mathlib .olean files; axioms of every theorem audited ⊆ {propext, Classical.choice, Quot.sound}',
     'hand-written model KfacVerif/Model/Kaisa.lean tied to kfac/assignment.py by this correspondence',
